@@ -23,7 +23,9 @@ Definition miter_S (Ca Cb : Circuit) (So : option (list string)) : list string :
   choice So (startpoints (c_g Ca) ∩ startpoints (c_g Cb)).
 Definition miter_E (Ca Cb : Circuit) (Eo : option (list string)) : list string :=
   choice Eo (endpoints (c_g Ca) ∩ endpoints (c_g Cb)).
-Definition sat_type (E : list string) : gtype := if (1 <? length E)%nat then Or else Buf.
+(* "or" / "buf" for a non-empty comparison; nothing compared: constant 0 *)
+Definition sat_type (E : list string) : gtype :=
+  if bool_decide (E = []) then C0 else if (1 <? length E)%nat then Or else Buf.
 
 (* So / Eo: the collections in iteration order (the result does not depend on the order, see MiterProofs) *)
 Definition miter (Ca : Circuit) (Cbo : option Circuit) (So Eo : option (list string)) : res Circuit :=
